@@ -63,6 +63,23 @@ type Case struct {
 
 const Watchdog = 8 * time.Second
 
+// outputsOf builds the data objects a task answers for its declared data outputs ({"v": val} each, the body the
+// generated conditions read) and notes them for the reference under their names.
+func outputsOf(n *gen.Node, val int64, mres map[string]int64) map[string]any {
+	if len(n.Outputs) == 0 {
+		return nil
+	}
+	objs := map[string]any{}
+	for _, o := range n.Outputs {
+		name, _, _ := strings.Cut(o, "=")
+		objs[name] = map[string]any{"v": int(val)}
+		if mres != nil {
+			mres[name] = val
+		}
+	}
+	return objs
+}
+
 // Value returns the value task writes at its k-th request (0-based).
 func (c *Case) Value(task string, k int) int64 {
 	vs := c.Values[task]
@@ -387,7 +404,11 @@ func RunStepwise(prop string, c *Case, env *fw.Env, v *fw.V) *Result {
 			results[w] = int(val)
 			mres[w] = val
 		}
-		in.Answer(req, bpmn.DoWithResults(results))
+		if objs := outputsOf(c.G.Node(task), val, mres); len(objs) > 0 {
+			in.Answer(req, bpmn.DoWithResults(results), bpmn.DoWithObjects(objs))
+		} else {
+			in.Answer(req, bpmn.DoWithResults(results))
+		}
 		if err := m.Answer(task, mres); err != nil {
 			v.Inconclusive("model", "%v", err)
 			res.Aborted = true
@@ -531,6 +552,7 @@ func RunStorm(prop string, c *Case, env *fw.Env, v *fw.V) *Result {
 		for _, w := range c.G.Node(t).Writes {
 			mres[w] = val
 		}
+		outputsOf(c.G.Node(t), val, mres)
 		m.Answer(t, mres)
 	}
 	w := in.Wait(context.Background())
@@ -564,11 +586,16 @@ func RunStorm(prop string, c *Case, env *fw.Env, v *fw.V) *Result {
 			for _, wn := range c.G.Node(r.Act).Writes {
 				results[wn] = int(val)
 			}
+			objs := outputsOf(c.G.Node(r.Act), val, nil)
 			wg.Add(1)
 			go func(r *drive.Req) {
 				defer wg.Done()
 				<-barrier
-				in.Answer(r, bpmn.DoWithResults(results))
+				if len(objs) > 0 {
+					in.Answer(r, bpmn.DoWithResults(results), bpmn.DoWithObjects(objs))
+				} else {
+					in.Answer(r, bpmn.DoWithResults(results))
+				}
 			}(r)
 		}
 		if c.OnRound != nil {
@@ -640,6 +667,7 @@ func Orders(c *Case, limit int, rng *fw.Rng) ([][]string, bool) {
 			for _, w := range c.G.Node(t).Writes {
 				mres[w] = val
 			}
+			outputsOf(c.G.Node(t), val, mres)
 			m2.Answer(t, mres)
 			rec(m2, occ2, append(prefix, t))
 		}
@@ -671,6 +699,7 @@ func Orders(c *Case, limit int, rng *fw.Rng) ([][]string, bool) {
 			for _, w := range c.G.Node(t).Writes {
 				mres[w] = val
 			}
+			outputsOf(c.G.Node(t), val, mres)
 			m.Answer(t, mres)
 			ord = append(ord, t)
 		}
@@ -723,6 +752,7 @@ func Nontrivial(c *Case) bool {
 		for _, w := range c.G.Node(t).Writes {
 			mres[w] = val
 		}
+		outputsOf(c.G.Node(t), val, mres)
 		if m.Answer(t, mres) != nil {
 			break
 		}
